@@ -223,7 +223,7 @@ pub fn meta(tier: Tier) -> Meta {
             "flat world (permanent difficulty), always-success scripts",
             "BlockExt.received_at is wall-clock and masked; cycles are compared differentially with the main-chain-only node",
             "rows of side-chain blocks and MMR positions beyond the tip are not part of the statement and ignored",
-            "snapshot examined at quiescent points (readers concurrent with a reorg are covered only through the published-snapshot object, not through gate-level interleavings)",
+            "snapshots are judged at quiescent points and, through a gate, at the instant between the database commit of every block and the publication of the new snapshot (the published snapshot must still describe its own tip exactly); other reader instants are not enumerated",
         ],
         bounds: json!({
             "designed_universes": designed().len(),
@@ -332,6 +332,42 @@ fn run_case(ctx: &Ctx, cons: &Consensus, built: &Built, case: &Case, twins: &mut
     for b in &built.prefix {
         node.process(b).map_err(|e| format!("prefix block refused: {e}"))?;
     }
+    // "inside every published snapshot even while blocks are being processed": at the gate between
+    // the database commit of a block and the publication of the new snapshot, a reader takes the
+    // published snapshot and it is judged like a quiescent one (against the replay of ITS tip's chain)
+    let inflight: std::sync::Arc<std::sync::Mutex<Vec<(String, String)>>> = Default::default();
+    let inflight_count = std::sync::Arc::new(std::sync::atomic::AtomicU64::new(0));
+    {
+        let shared = node.shared.clone();
+        let cons2 = cons.clone();
+        let sink = std::sync::Arc::clone(&inflight);
+        let count = std::sync::Arc::clone(&inflight_count);
+        ckb_chain::verif::set_gate(Some(Box::new(move |point, _hash| {
+            if point != "verify_block:after-commit" {
+                return;
+            }
+            use ckb_store::ChainStore;
+            let snap = shared.snapshot();
+            let tipn = snap.tip_number();
+            let chain: Option<Vec<BlockView>> = (0..=tipn).map(|n| snap.get_block_hash(n).and_then(|h| snap.get_block(&h))).collect();
+            count.fetch_add(1, std::sync::atomic::Ordering::SeqCst);
+            match chain {
+                None => sink.lock().unwrap().push(("main-chain-unreadable".into(), format!("the published snapshot (tip {tipn}) cannot read its own main chain while the next block is being committed"))),
+                Some(chain) => match RefChain::replay(&cons2, &chain) {
+                    Err(e) => sink.lock().unwrap().push(("reference".into(), e)),
+                    Ok(r) => {
+                        let ds = dump(snap.as_ref());
+                        for (sub, msg) in compare(snap.as_ref(), &ds, &r) {
+                            sink.lock().unwrap().push((sub, msg));
+                        }
+                        if snap.tip_hash().as_slice() != r.meta_tip.as_slice() || snap.total_difficulty() != &r.tip_total_difficulty {
+                            sink.lock().unwrap().push(("tip-fields".into(), "tip / total difficulty fields disagree with the snapshot's own chain".into()));
+                        }
+                    }
+                },
+            }
+        })));
+    }
     let mut delivered: Vec<String> = vec![];
     let mut detached_tx_blocks = 0u64;
     let mut prev_chain: Vec<packed::Byte32> = node.main_chain().iter().map(|b| b.hash()).collect();
@@ -364,6 +400,9 @@ fn run_case(ctx: &Ctx, cons: &Consensus, built: &Built, case: &Case, twins: &mut
                 }
             }
         }
+        for (sub, msg) in inflight.lock().unwrap().drain(..) {
+            report.violation(format!("snapshot-during-commit/{sub}"), format!("{msg} [snapshot taken between the database commit and the snapshot publication while processing {step:?}, step {si}]"), json!({"case": case, "step": si, "view": "snapshot-during-commit"}));
+        }
         delivered.push(format!("{step:?}"));
         let what = format!("after {step:?}");
         check_state(&node, cons, built, &mut report, case, si, &what)?;
@@ -384,6 +423,8 @@ fn run_case(ctx: &Ctx, cons: &Consensus, built: &Built, case: &Case, twins: &mut
             d
         }, node.tip().hash().as_slice().to_vec())));
     }
+    ckb_chain::verif::set_gate(None);
+    report.count("snapshots_judged_during_a_commit", inflight_count.load(std::sync::atomic::Ordering::SeqCst));
     // differential: a node that only ever saw the final main chain
     let tip = node.tip().hash();
     let mine = dump(node.shared.store());
